@@ -81,6 +81,21 @@ CHECKS = {
                      'Body holds exactly the element of the bound part (rename = element name, type = the struct generated for it, defined in its module); one Header member per bound '
                      'header part under the element\'s own name; response envelope iff output; address literal = soap:address.',
                 note='trusted: SMI environment models; serialization itself (yaserde) is outside; two operations, <= 2 header parts; single-part bodies when parts= is absent'),
+    'C07': dict(engine='E2-smi', cat='model_checking', design='4/C07',
+                technique='symbolic execution of facet extraction + constructor/delegation emitters and of the async helper coroutine MIR; z3 decides emission obligations per path',
+                text='(b) A restricted simple type whose supported facets (each absent or one of several values incl. negative and i32 extremes, as child elements or attributes of '
+                     'xs:restriction), enumerations and base are symbolic is pushed through build_restrictions / Restrictions::write_xml / write_check_restrictions_header: z3 decides per '
+                     'path whether the emitted constructor differs from the declared facet set; every struct and envelope (incl. Header/Body) must delegate the check to each field once and '
+                     'propagate the error. (c) The coroutine MIR of both send helpers is explored over symbolic stub outcomes: the restriction check is the first action and its failure '
+                     'is returned before serialization or any reqwest call. Facet semantics of the values are C06 (Kani).',
+                note='trusted: SMI environment models, reqwest/yaserde stubs; value-level execution of zeep-generated check code (one known gap: own facets of a simple type derived from a restricted simple type) is not in the quick tier'),
+    'C16': dict(engine='E2-smi', cat='other', design='4/C16',
+                technique='symbolic execution of the async helpers\' coroutine MIR over contract-constrained nondeterministic stubs of reqwest / yaserde (z3 Booleans for every outcome)',
+                text='Claimed for zeep\'s side of the exchange only: both helpers (given client / fresh client) are executed from their coroutine MIR; credentials, the result of each stage '
+                     '(restriction check, serialization, send, status class, body text, deserialization) and Pending polls are symbolic. On every path: one post+send iff check and '
+                     'serialization succeeded, to the given address with the serialization as body, basic_auth iff credentials, Ok only if every stage succeeded and the status is not 4xx/5xx, '
+                     'Ok value = what from_str returned for the reply body. Generated method bodies are checked to forward client, address, credentials and request.',
+                note='trusted: reqwest semantics (one send = one POST, redirects, TLS, transport errors surface as Err), yaserde; stubs have no native replay'),
 }
 
 NA = {
@@ -88,7 +103,7 @@ NA = {
     'C04': 'deserialization and round-trip are executed by yaserde derive expansion and xml-rs at run time (fmt/dyn/heap); CBMC cannot get through it and the MIR interpreter covers zeep, not yaserde',
     'C18': 'Send/Sync are auto-trait facts computed by rustc from the coroutine layout, not properties of executions a bounded symbolic run can falsify',
 }
-PENDING = ['C07', 'C13', 'C14', 'C16', 'C17']
+PENDING = ['C13', 'C14', 'C17']
 
 
 def main():
